@@ -15,13 +15,15 @@ git apply $chg/patch.diff || { res "patch-does-not-apply"; git -C /repo worktree
 if (cd $moddir && go test -vet=off -count=1 $pkgs) > $wt/.t_existing.log 2>&1; then ex=pass; else ex=FAIL; fi
 cp $chg/demo/*.go $moddir/$dst/ 2>/dev/null
 runre=$(grep -h "^func Test" $chg/demo/*.go | sed 's/func \(Test[A-Za-z0-9_]*\).*/\1/' | paste -sd'|')
-if (cd $moddir && go test -vet=off -count=1 -run "^($runre)\$" ./$dst/) > $wt/.t_demo_with.log 2>&1; then dw=pass; else dw=fail; fi
+runargs=(-run "^($runre)\$")
+if [ -z "$runre" ]; then runargs=(-ginkgo.focus=SEED); fi
+if (cd $moddir && go test -vet=off -count=1 ./$dst/ "${runargs[@]}") > $wt/.t_demo_with.log 2>&1; then dw=pass; else dw=fail; fi
 git apply -R $chg/patch.diff
-if (cd $moddir && go test -vet=off -count=1 -run "^($runre)\$" ./$dst/) > $wt/.t_demo_without.log 2>&1; then dwo=pass; else dwo=fail; fi
+if (cd $moddir && go test -vet=off -count=1 ./$dst/ "${runargs[@]}") > $wt/.t_demo_without.log 2>&1; then dwo=pass; else dwo=fail; fi
 for f in $chg/demo/*.go; do rm -f $moddir/$dst/$(basename $f); done
 git apply $chg/patch.diff
 cd /verif
-VERIF_REPO=$wt ./verif check $prop > $wt/.check.log 2>&1; rc=$?
+if [ -n "${SKIP_CHECK:-}" ]; then rc=$SKIP_CHECK; echo skipped > $wt/.check.log; else VERIF_REPO=$wt ./verif check $prop > $wt/.check.log 2>&1; rc=$?; fi
 grep -m2 "VIOLATION\|HARNESS-ERROR\|KNOWN-FINDING" $wt/.check.log
 res "existing=$ex demo_with=$dw demo_without=$dwo check_rc=$rc"
 mkdir -p /verif/.work/seedlogs && cp $wt/.check.log /verif/.work/seedlogs/$prop-$(basename $chg).log
